@@ -19,7 +19,9 @@ RULE = ("clean-grammar (schema, document) pairs x option sets sampled from every
         "normalization, deprecation strategy, other-variant, skip-none, custom scalars module, extern enums, visibility) x "
         "delivery form {library (all operations / one selected operation), CLI-written file, derive with serde, derive in a "
         "consumer whose only dependency is graphql_client}; each case is compiled by the real rustc (metadata only) and "
-        "diagnostics are attributed to the case by source file. Non-trivial = every case (each has >= 1 composite selection); "
+        "diagnostics are attributed to the case by source file. Fixed cases: every Rust keyword at every name position, variant-name "
+        "sweeps, fragment-recursion patterns, list-literal defaults of list variables with non-null built-in scalar elements "
+        "(nullable / required / nested / empty lists). Non-trivial = every case (each has >= 1 composite selection); "
         "distinct by (schema, document, options, form)")
 
 FLOOR = {"form:library": 40, "form:library-one-op": 5, "form:cli": 4, "form:derive": 8, "form:derive-noserde": 8, "rustc-accepted": 60}
@@ -231,6 +233,34 @@ def keyword_sweep_cases(rng):
     return out
 
 
+def list_default_cases(rng):
+    """list literals as defaults of list-typed variables whose elements are non-null built-in scalars (the shapes outside
+    finding K6): nullable and required outer lists, nested lists, empty lists, next to scalar defaults (C02-r10m1)"""
+    from ..model import Schema, T, NN, L
+    s = Schema()
+    s.add("Query", {"kind": "object", "implements": [], "fields": [{"name": "x", "type": T("Int"), "args": [], "deprecated": None}]})
+    shapes = [("Int", "1", "2"), ("String", '"a"', '"b \\" c"'), ("Float", "1.5", "2.5"), ("Boolean", "true", "false")]
+    vs = []
+    for n, a, b in shapes:
+        e = NN(T(n))
+        vs += [{"name": "ol%s" % n, "type": L(e), "default": "[%s, %s]" % (a, b)},
+               {"name": "rl%s" % n, "type": NN(L(e)), "default": "[%s]" % a},
+               {"name": "oe%s" % n, "type": L(e), "default": "[]"},
+               {"name": "onl%s" % n, "type": L(NN(L(e))), "default": "[[%s], [%s, %s]]" % (a, b, a)},
+               {"name": "rnl%s" % n, "type": NN(L(NN(L(e)))), "default": "[[%s]]" % b},
+               {"name": "sc%s" % n, "type": T(n), "default": a}]
+    doc = {"operations": [{"kind": "query", "name": "ListDefaults", "vars": vs, "sel": [["field", None, "x", None, None]]}], "fragments": []}
+    out = []
+    for i, form in enumerate(["library", "derive"]):
+        opts = {"mode": "derive"} if form == "derive" else {}
+        c = C.make_case("ld%d" % i, s, doc, rng, options=opts, fmt="sdl" if i == 0 else "json", features=["list-default"])
+        if form == "library":
+            c["options"]["mode"] = "cli"
+        c["form"] = form
+        out.append(c)
+    return out
+
+
 def execute(run, cases, tag="b0"):
     fac = Factory("%s-%s-%d" % (run.prop, tag, run.seed))
     # the library route for every case (also for cli / derive cases: it tells "generation succeeds")
@@ -352,6 +382,7 @@ def main(run):
         if bi == 0:
             cs += keyword_sweep_cases(run.rng)
             cs += variant_name_sweep_cases(run.rng)
+            cs += list_default_cases(run.sub_rng("list-defaults"))
             # C12's fragment-recursion patterns (every third one) as supported inputs of this property: they must type-check
             from .c12 import fragment_patterns
             for fc in fragment_patterns(run.sub_rng("c12-patterns"))[::3]:
